@@ -30,7 +30,7 @@ type c03Part struct {
 }
 
 type c03Op struct {
-	K    string   `json:"k"` // acq | rel | set | add | rm
+	K    string   `json:"k"` // acq | rel | set | add | rm | alias (lookup: Part.Name becomes a second name of the object registered as Key)
 	Key  string   `json:"key,omitempty"`
 	Mode int      `json:"mode,omitempty"` // acq: which context keys carry Key: 0 both strategies' keys, 1 only this strategy's, 2 only the other strategy's, 3 none
 	Idx  int      `json:"idx,omitempty"`
@@ -198,6 +198,26 @@ func genC03(t *rapid.T) c03Case {
 		}
 	}
 	c.Ops = ops
+	if c.Kind == "lookup" && rapid.IntRange(0, 3).Draw(t, "withAliases") == 0 {
+		// one partition object registered under a second routing key as well (AddPartition takes any name)
+		var ops2 []c03Op
+		pendingRm := ""
+		for _, o := range c.Ops {
+			ops2 = append(ops2, o)
+			if pendingRm != "" && rapid.Bool().Draw(t, "aliasGoesNow") {
+				ops2 = append(ops2, c03Op{K: "rm", Key: pendingRm}) // the second name is given up again
+				pendingRm = ""
+			}
+			if o.K == "acq" && rapid.IntRange(0, 5).Draw(t, "aliasHere") == 0 {
+				an := rapid.SampledFrom(append([]string{"x0", "zz"}, names...)).Draw(t, "aliasName")
+				ops2 = append(ops2, c03Op{K: "alias", Key: rapid.SampledFrom(names).Draw(t, "aliasOf"), Part: &c03Part{Name: an}})
+				if rapid.IntRange(0, 2).Draw(t, "aliasGoes") > 0 {
+					pendingRm = an
+				}
+			}
+		}
+		c.Ops = ops2
+	}
 	return c
 }
 
@@ -324,8 +344,14 @@ func runC03(_ *testing.T, c c03Case) (out kit.Outcome) {
 	if err != nil {
 		return kit.Outcome{Harness: "constructor rejected a valid partition set: " + err.Error()}
 	}
+	// lookup: second names under which a live partition object has been registered as well (one object, two routing
+	// keys: one bin with one count and one share behind both)
+	aliases := map[string]*c03Bin{}
 	find := func(key string) *c03Bin {
 		if c.Kind == "lookup" {
+			if b := aliases[key]; b != nil {
+				return b
+			}
 			for _, b := range bins {
 				if b.part.Name == key {
 					return b
@@ -395,6 +421,14 @@ func runC03(_ *testing.T, c c03Case) (out kit.Outcome) {
 				return &o
 			}
 			sum += b.busy
+		}
+		for name, b := range aliases {
+			bb, e1 := ls.BinBusyCount(name)
+			bl, e2 := ls.BinLimit(name)
+			if e1 != nil || e2 != nil || bb != b.busy || bl != c03Share(total, b.part.Frac) {
+				o := kit.Viol(c.Kind+":alias", "after op %d %v: %q is a second name of partition %q (busy %d, fraction %v): the strategy reports busy=%d limit=%d (%v %v), want %d / %d", i, op, name, b.part.Name, b.busy, b.part.Frac, bb, bl, e1, e2, b.busy, c03Share(total, b.part.Frac))
+				return &o
+			}
 		}
 		return nil
 	}
@@ -512,6 +546,7 @@ func runC03(_ *testing.T, c c03Case) (out kit.Outcome) {
 			epoch++
 			busy = 0
 			unk = &c03Bin{part: c03Part{Name: "<unknown>", Frac: 0}}
+			aliases = map[string]*c03Bin{} // the new instance was built from the first names only
 		case "set":
 			if len(held) > 0 {
 				sawSetHeld = true
@@ -576,9 +611,38 @@ func runC03(_ *testing.T, c c03Case) (out kit.Outcome) {
 				}
 				bins = append(bins, b)
 			}
+		case "alias":
+			if c.Kind != "lookup" || op.Part == nil {
+				continue
+			}
+			target := find(op.Key)
+			if target == unk || aliases[op.Key] != nil || find(op.Part.Name) != unk {
+				continue
+			}
+			sawDyn = true
+			if !ls.AddPartition(op.Part.Name, target.lookup) {
+				return kit.Viol("lookup:add-result", "op %d AddPartition(%q, the object registered as %q) returned false although the name is free", i, op.Part.Name, op.Key)
+			}
+			aliases[op.Part.Name] = target
 		case "rm":
 			sawDyn = true
 			if c.Kind == "lookup" {
+				if ab := aliases[op.Key]; ab != nil {
+					// a second name goes: the object stays registered under its first name, untouched
+					n, ok := ls.RemovePartition(op.Key)
+					if !ok || n != ab.busy {
+						return kit.Viol("lookup:remove-result", "op %d RemovePartition(%q) (a second name of %q) = (%d,%v), model busy %d", i, op.Key, ab.part.Name, n, ok, ab.busy)
+					}
+					delete(aliases, op.Key)
+					break
+				}
+				hasAlias := false
+				for _, ab := range aliases {
+					hasAlias = hasAlias || ab == find(op.Key)
+				}
+				if hasAlias {
+					continue // (the first name of an object that has a second one stays: keeps the model to one list)
+				}
 				bin := find(op.Key)
 				n, ok := ls.RemovePartition(op.Key)
 				if ok != (bin != unk) || (ok && n != bin.busy) {
